@@ -969,9 +969,11 @@ class Exec:
                     z = z3.Int(nm + "?")
                     st2.env[nm] = z
                     zs.append(z)
-                lo, hi = lit(self.spec_ev(t.args[1], st2)), lit(self.spec_ev(t.args[2], st2))
+                none = lambda a: isinstance(a, ast.Constant) and a.value is None      # open bound
+                lo = None if none(t.args[1]) else lit(self.spec_ev(t.args[1], st2))
+                hi = None if none(t.args[2]) else lit(self.spec_ev(t.args[2], st2))
                 body = lit(self.spec_ev(t.args[3], st2))
-                rng = z3.And(*[z3.And(z >= lo, z < hi) for z in zs])
+                rng = z3.And(*([z >= lo for z in zs if lo is not None] + [z < hi for z in zs if hi is not None]))
                 if name == "forall":
                     return z3.ForAll(zs, z3.Implies(rng, body))
                 return z3.Exists(zs, z3.And(rng, body))
